@@ -49,17 +49,9 @@ type c15Fn struct {
 }
 
 func runC15(c *core.Ctx) {
-	var tick uint64
-	kafka.VerifSetPoints(map[string]func(){
-		"reader.run.beforeStart": func() {
-			if n := atomic.AddUint64(&tick, 1); n%2 == 0 {
-				time.Sleep(time.Duration(50+(n%7)*100) * time.Microsecond)
-			}
-		},
-	})
-	c.CasesPar("group", c.N(600, 8000), 4, func(k *core.Case) { c15Run(k) })
+	c.CasesPar("group", c.N(600, 18000), 4, func(k *core.Case) { c15Run(k) })
 	// one at a time: the goroutine census must be attributable
-	c.Cases("closecensus", c.N(64, 1200), func(k *core.Case) { c15CloseCensus(k) })
+	c.Cases("closecensus", c.N(64, 2000), func(k *core.Case) { c15CloseCensus(k) })
 }
 
 func c15Run(k *core.Case) {
